@@ -2,7 +2,10 @@
 package main
 
 import (
+	"fmt"
 	"os"
+	"strings"
+	"sync"
 
 	"github.com/benbjohnson/litestream"
 
@@ -14,12 +17,37 @@ func main() {
 	o := hx.ParseFlags("C13")
 	res := hx.NewResult(o, "c13: write/sync histories followed by idle syncs on real SQLite + litestream")
 	res.Rule = "seeded write/sync histories (4-20 ops) followed by 6-10 idle syncs, MinCheckpointPageN in {1,2,3,4,8,20,1000}, TruncatePageN in {0(default),1,2,3,6,30}, CheckpointInterval in {0,1ms,50ms,100s}, MaxSyncWALBytes from one frame to unlimited; oracle: live WAL frames (independent scanner) < lowest threshold + 1 after every successful sync with no pinned application transaction; highest L0 TXID constant over the last idle syncs and at most 3 further files; non-trivial = history reached the idle phase; distinct = canonical history text"
-	or := histlib.Oracles{WalBound: true, IdleQuiet: true, Classify: classify}
+	or := histlib.Oracles{WalBound: true, IdleQuiet: true, Classify: classify, TraceCk: true}
+	drv, err := hx.StartDriver(o.Driver)
+	if err != nil {
+		hx.Fatal(err)
+	}
+	defer drv.Close()
 	if o.Replay != "" {
 		os.Exit(histlib.ReplayMain(o, or))
 	}
 	histlib.RunEngine(o, res, histlib.EngineSpec{ID: "C13", Gen: histlib.GenC13, Oracles: or, NQuick: 250, NThorough: 5000,
-		Nontrivial: func(st histlib.RunStats) bool { return st.Kinds["idle"] > 0 }})
+		Nontrivial: func(st histlib.RunStats) bool { return st.Kinds["idle"] > 0 },
+		Extra: func(h histlib.History, st histlib.RunStats, res *hx.Result, mu *sync.Mutex) {
+			mu.Lock()
+			defer mu.Unlock()
+			for _, c := range st.CkObs {
+				model, err := drv.Ask(c.Line)
+				if err != nil {
+					hx.Fatal(err)
+				}
+				obs := strings.Join(c.Observed, ",")
+				if obs == "" {
+					obs = "-"
+				}
+				res.Count("ck-decision:" + obs)
+				if hx.Differs(obs, model) {
+					res.DisagreementsChecked++
+					res.AddFinding("disagreement", "C13/checkpointIfNeeded-model-vs-impl", fmt.Sprintf("line %q: litestream executed %s, model predicts %s", c.Line, obs, model),
+						map[string]any{"history": h, "text": h.String(), "line": c.Line})
+				}
+			}
+		}})
 	if err := res.Write(o.Out); err != nil {
 		hx.Fatal(err)
 	}
